@@ -62,10 +62,12 @@ func (wd *world) log(e string) {
 	wd.mu.Unlock()
 }
 
-// within waits for f like the package-level within, but gives up early when the pool is wedged in the state the
-// Submit window leaves behind (not running, a task queued and counted) and nothing was logged for a while: a dispatcher
-// that is still in its loop would pop that task at once.
-func (wd *world) within(d time.Duration, f func()) bool {
+// withinPool waits for f like within, but gives up early when the pool is wedged in a state that one of the two
+// recorded life-cycle windows leaves behind and nothing has happened for a while:
+//   - not running, a task queued and counted (Submit window): a dispatcher still in its loop would pop it at once;
+//   - not running, nothing queued, nothing pending (lost shutdown signal) — this is also the normal state in the last
+//     microseconds of a shutdown, so the patience is longer.
+func withinPool(pool *workerpool.WorkerPool, idle func() time.Duration, d time.Duration, f func()) bool {
 	done := make(chan struct{})
 	go func() {
 		defer close(done)
@@ -79,20 +81,25 @@ func (wd *world) within(d time.Duration, f func()) bool {
 		if time.Now().After(deadline) {
 			return false
 		}
-		wd.mu.Lock()
-		idle := time.Since(wd.lastEvent)
-		wd.mu.Unlock()
-		if idle > 4*time.Second {
-			if st := wd.state(); st.readable && st.running == "false" && st.queued > 0 && st.pending > 0 {
-				if wd.mu.Lock(); time.Since(wd.lastEvent) > 4*time.Second {
-					wd.mu.Unlock()
-
-					return false
-				}
-				wd.mu.Unlock()
+		if i := idle(); i > 4*time.Second {
+			st := poolStateOf(pool)
+			if st.readable && st.running == "false" && st.queued > 0 && st.pending > 0 && idle() > 4*time.Second {
+				return false
+			}
+			if st.readable && st.running == "false" && st.queued == 0 && st.pending == 0 && idle() > 10*time.Second {
+				return false
 			}
 		}
 	}
+}
+
+func (wd *world) within(d time.Duration, f func()) bool {
+	return withinPool(wd.pool, func() time.Duration {
+		wd.mu.Lock()
+		defer wd.mu.Unlock()
+
+		return time.Since(wd.lastEvent)
+	}, d, f)
 }
 
 // body is a task's behaviour: the tasks it submits, and an optional gate it waits for before returning.
@@ -226,12 +233,14 @@ type poolState struct {
 	readable bool
 }
 
-func (wd *world) state() poolState {
+func (wd *world) state() poolState { return poolStateOf(wd.pool) }
+
+func poolStateOf(pool *workerpool.WorkerPool) poolState {
 	st := poolState{running: "unreadable", pending: -1, queued: -1}
 	ok := within(2*time.Second, func() {
-		r := wd.pool.IsRunning()
-		p := wd.pool.PendingTasksCounter.Get()
-		q := wd.pool.Queue.Size()
+		r := pool.IsRunning()
+		p := pool.PendingTasksCounter.Get()
+		q := pool.Queue.Size()
 		st = poolState{running: fmt.Sprint(r), pending: p, queued: q, readable: true}
 	})
 	if !ok {
@@ -270,8 +279,10 @@ func (wd *world) outcome(complete, zero bool) string {
 
 // classify turns a hang / stuck counter into a finding signature: the two life-cycle windows recorded as known
 // findings are recognised by the state they leave behind, anything else is reported with its own signature.
-func (wd *world) classify(what string) map[string]string {
-	st := wd.state()
+func (wd *world) classify(what string) map[string]string { return classifyPool(wd.pool, what) }
+
+func classifyPool(pool *workerpool.WorkerPool, what string) map[string]string {
+	st := poolStateOf(pool)
 	switch {
 	case !st.readable:
 		return map[string]string{"api": "workerpool.Start", "effect": "pool-lock-held-while-waiting", "wait": what}
